@@ -242,3 +242,24 @@ fn f17_pin_named_like_out_column_does_not_make_input_bidirectional() {
     let f = dig::File::parse(&dig_doc(&[("In", "D"), ("Out", "Q")], "D D_out Q\n0 0 0\n")).unwrap();
     assert!(f.signals.iter().find(|s| s.name == "D").unwrap().is_bidirectional());
 }
+
+// F19 (found later, by a seed sub-agent's side remark; repaired in e373c3c): a column that is both the
+// expected column `<name>_out` of a bidirectional signal and the input column of a signal of that name.
+#[test]
+fn f19_clock_row_with_a_column_that_is_both_input_and_expected() {
+    use digital_test_runner::SignalType;
+    let signals = vec![
+        Signal::input("CLK", 1, 0),
+        Signal { name: "A".into(), bits: 1, typ: SignalType::Bidirectional { default: InputValue::Z } },
+        Signal::input("A_out", 1, 0),
+    ];
+    let tc = "CLK A A_out\nC 1 1\n".parse::<ParsedTestCase>().unwrap().with_signals(signals).unwrap();
+    let rows = no_panic(|| {
+        let it = tc.try_iter_static().unwrap();
+        it.map(|r| r.map(|row| row.inputs.iter().map(|i| i.value).collect::<Vec<_>>())).collect::<Vec<_>>()
+    });
+    assert_eq!(rows.len(), 3);
+    for row in rows {
+        assert_eq!(row.unwrap()[2], InputValue::Value(1));
+    }
+}
